@@ -183,3 +183,15 @@ Definition check_sing_report (n : nat) (B : mat) (sing : list (nat * nat)) (X : 
   forallb (fun i => check_binv_row n (repair_cols n B sing) (mrow X i) i) (seq 0 n) &&
   forallb (fun cr => check_btran n B (mrow X (fst cr)) (mkvec n (fun _ => 0))) sing &&
   forallb (fun cr => Nat.ltb (fst cr) n && Nat.ltb (snd cr) n) sing.
+
+(* a recorded instance: the matrix and the factor_work dumped by h_fac after mpq_ILLfactor (FNEW 3, default parameters;
+   pivot order (2,2), (0,1), (1,0); the last rank is a singleton) *)
+Definition ex_lu_B : mat := [[2; 1; 0]; [1; 3; 1]; [0; 1; 4]].
+Definition ex_lu_dump : repr :=
+  {| f_dim := 3;
+     f_lc := [(2%nat, [(1%nat, 1 # 4)]); (0%nat, [(1%nat, 11 # 4)]); (1%nat, [])];
+     f_lr := [(2%nat, []); (0%nat, []); (1%nat, [(2%nat, 1 # 4); (0%nat, 11 # 4)])];
+     f_er := [];
+     f_uc := [[(1%nat, -9 # 2); (0%nat, 2)]; [(0%nat, 1); (2%nat, 1)]; [(2%nat, 4)]];
+     f_ur := [[(1%nat, 1); (0%nat, 2)]; [(0%nat, -9 # 2)]; [(2%nat, 4); (1%nat, 1)]];
+     f_rperm := [2; 0; 1]%nat; f_cperm := [2; 1; 0]%nat |}.
